@@ -1,6 +1,6 @@
 (* C17 (3/3) -- key estimation: executable model of
    partitura/musicanalysis/key_identification.py: estimate_key / ks_kid /
-   _similarity_with_pitch_profile with similarity np.corrcoef, and format_key(KEYS[argmax]).
+   _similarity_with_pitch_profile with similarity np.corrcoef, and format_key of KEYS[argmax].
    Definitions only.
 
    Numbers.  All quantities are integers: a case's float durations are dyadic rationals and
@@ -52,7 +52,7 @@ Fixpoint argmax_by (lt : Z -> Z -> bool) (cands : list Z) (best : Z) : Z :=
 Definition estimate_key_idx (M : list (list Z)) (ns : list knote) : Z :=
   argmax_by (key_lt M (ky_hist ns)) (zrange 1 23) 0.
 
-(* format_key(*KEYS[i]) *)
+(* format_key applied to KEYS[i] *)
 Definition key_names : list string :=
   map (fun k => (fst (fst k) ++ (if String.eqb (snd (fst k)) "minor" then "m" else ""))%string) keys_table.
 
